@@ -9,17 +9,18 @@ import (
 
 // fgen builds random formulas.
 type fgen struct {
-	t        *rapid.T
-	atoms    []*m.Atom
-	maxAtoms int
-	maxDepth int
-	maxWidth int
-	quant    bool  // allow nested/atLeast/atMost
-	edges    int   // number of edge properties e0..e(edges-1)
-	rows     []int // allowed rows of the atom table (nil = all)
-	budget   int   // remaining formula nodes (connectives + leaves); <=0 forces single-atom leaves
-	multiPC  bool  // bias leaves towards several constraints (and several quantifiers) in one propertyConstraints map
-	companions bool // add always-true constraints (minCount 0 / maxCount 9) next to atoms, under the same key
+	t          *rapid.T
+	atoms      []*m.Atom
+	maxAtoms   int
+	maxDepth   int
+	maxWidth   int
+	quant      bool  // allow nested/atLeast/atMost
+	edges      int   // number of edge properties e0..e(edges-1)
+	rows       []int // allowed rows of the atom table (nil = all)
+	budget     int   // remaining formula nodes (connectives + leaves); <=0 forces single-atom leaves
+	multiPC    bool  // bias leaves towards several constraints (and several quantifiers) in one propertyConstraints map
+	companions bool  // add always-true constraints (minCount 0 / maxCount 9) next to atoms, under the same key
+	viaPaths   bool  // let some atoms constrain a two-step path `ex.l<id> / ex.p<id>` (required for uniqueValues)
 }
 
 func (g *fgen) newAtom() *m.Atom {
@@ -34,8 +35,17 @@ func (g *fgen) newAtom() *m.Atom {
 	}
 	id := len(g.atoms)
 	a := &m.Atom{ID: id, Row: row, Prop: fmt.Sprintf("p%d", id)}
-	if m.AtomTable[row].Class == "cmp" {
+	switch cl := m.AtomTable[row].Class; {
+	case cl == "cmp":
 		a.Prop2 = fmt.Sprintf("q%d", id)
+	case cl == "unique":
+		if !g.viaPaths { // uniqueValues only means something over a path: fall back to a plain count atom
+			a.Row = rowOf("minCount")
+		} else {
+			a.Via = fmt.Sprintf("l%d", id)
+		}
+	case g.viaPaths && rapid.IntRange(0, 5).Draw(g.t, "via") == 0:
+		a.Via = fmt.Sprintf("l%d", id)
 	}
 	g.atoms = append(g.atoms, a)
 	return a
@@ -134,6 +144,21 @@ func (g *fgen) formula(depth int) *m.F {
 	}
 }
 
+// bounded draws a formula whose estimated number of generated rule bodies stays under limit (the translator's
+// expansion is multiplicative, so a small formula can cost minutes); falls back to smaller budgets, then to one atom.
+func (g *fgen) bounded(limit int) *m.F {
+	budget := g.budget
+	for try := 0; try < 4; try++ {
+		g.budget = budget
+		f := g.formula(0)
+		if f.Cost() <= limit {
+			return f
+		}
+		budget = budget/2 + 1
+	}
+	return m.AtomF(g.atom())
+}
+
 func (g *fgen) subs(depth int) []*m.F {
 	n := rapid.IntRange(1, g.maxWidth).Draw(g.t, "width")
 	out := make([]*m.F, n)
@@ -165,7 +190,62 @@ var fillers = []m.Lit{m.S("v0"), m.S("v1"), m.S("v2"), m.S("v3"), m.I(10)}
 
 // assign gives node n values for atom a aiming at truth value want.
 // exact=true forces the smallest witness (single-valued where applicable).
-func assign(t *rapid.T, n *m.Node, a *m.Atom, want bool, exact bool) {
+const classAux = m.NS + "Aux"
+
+// assign gives node ni of g values for atom a aiming at truth value want. For an atom over a path (a.Via) the
+// values are spread over auxiliary child nodes appended to g.
+func assign(t *rapid.T, g *m.Graph, ni int, a *m.Atom, want bool, exact bool) {
+	if a.Via == "" {
+		assignDirect(t, g.Nodes[ni], a, want, exact)
+		return
+	}
+	p := m.NS + a.Prop
+	var groups [][]m.Lit // values of each child
+	if a.R().Class == "unique" {
+		pool := []m.Lit{m.S("x"), m.S("y"), m.S("z"), m.I(4)}
+		if exact {
+			groups = [][]m.Lit{{pool[0]}}
+			if !want {
+				groups = append(groups, []m.Lit{pool[0]})
+			}
+		} else if want {
+			for _, l := range subset(t, pool, 0, 3, "uniq") {
+				groups = append(groups, []m.Lit{l})
+			}
+		} else {
+			dup := pick(t, pool, "dup")
+			groups = [][]m.Lit{{dup}, {dup}}
+			for _, l := range subset(t, pool, 0, 2, "uniqExtra") {
+				groups = append(groups, []m.Lit{l})
+			}
+		}
+	} else {
+		tmp := &m.Node{Props: map[string][]m.Val{}}
+		assignDirect(t, tmp, a, want, exact)
+		vals := tmp.Lits(p)
+		if exact || a.NeedsSingle() || len(vals) <= 1 {
+			groups = [][]m.Lit{vals}
+			if len(vals) == 0 && !exact && rapid.Bool().Draw(t, "noChild") {
+				groups = nil
+			}
+		} else {
+			k := rapid.IntRange(1, minInt(3, len(vals))).Draw(t, "children")
+			groups = make([][]m.Lit, k)
+			for i, v := range vals {
+				groups[i%k] = append(groups[i%k], v)
+			}
+		}
+	}
+	for _, grp := range groups {
+		ci := g.Add(classAux)
+		g.Nodes[ni].AddVal(m.NS+a.Via, m.NV(ci))
+		for _, l := range grp {
+			g.Nodes[ci].AddVal(p, m.LV(l))
+		}
+	}
+}
+
+func assignDirect(t *rapid.T, n *m.Node, a *m.Atom, want bool, exact bool) {
 	r := a.R()
 	p := m.NS + a.Prop
 	single := exact || a.NeedsSingle()
@@ -303,7 +383,7 @@ func propositionalGraph(t *rapid.T, atoms []*m.Atom) *m.Graph {
 	for mask := 0; mask < 1<<k; mask++ {
 		i := g.Add(classTest)
 		for j, a := range atoms {
-			assign(t, g.Nodes[i], a, mask&(1<<j) != 0, true)
+			assign(t, g, i, a, mask&(1<<j) != 0, true)
 		}
 	}
 	return g
@@ -327,7 +407,7 @@ func randomGraph(t *rapid.T, atoms []*m.Atom, edges []string, maxNodes int) *m.G
 	for i := 0; i < n; i++ {
 		nd := g.Nodes[i]
 		for _, a := range atoms {
-			assign(t, nd, a, rapid.Bool().Draw(t, "truth"), false)
+			assign(t, g, i, a, rapid.Bool().Draw(t, "truth"), false)
 		}
 		for _, e := range edges {
 			k := rapid.IntRange(0, 3).Draw(t, "deg")
